@@ -240,6 +240,19 @@ def add_complex(script, rng):
             if all(op[0] != "if" or True for op in body[:pos]):
                 body.insert(pos, ["assign", name, None, rhs, [], 0])
                 have = [name]
+        if rng.random() < 0.3:
+            # a complex SCALAR combined with a real ARRAY, in both operand orders and through every operator
+            pos = rng.randint(0, len(body))
+            c = rng.choice([["cnum", 0.0, 1.0], ["*", ["cnum", 0.0, 2.0], ["var", "<dt>"]], ["cnum", 1.0, -1.0]])
+            a = ["var", "cav"]
+            e = rng.choice([["*", c, a], ["*", a, c], ["+", c, a], ["+", a, c], ["/", c, ["+", a, ["num", 2]]],
+                            ["/", a, c], ["-", c, a], ["*", ["num", 2], c, a]])
+            new = [["call", ["cav"], "<builtin>array", [["num", 2]], {}, 0],
+                   ["assign", "cav", ["var", "i"], ["+", ["*", ["num", 0.5], ["var", "i"]], ["num", 1]],
+                    [["i", ["num", 0], ["num", 2]]], 0],
+                   ["assign", "cprod", None, e, [], 0],
+                   ["assign", "celem", None, ["sub", ["var", "cprod"], ["num", 1]], [], 0]]
+            body[pos:pos] = new
     return script
 
 
